@@ -176,6 +176,7 @@ def run(ctx: common.Ctx):
     unsupported: dict[str, int] = {}
     pipelines = 0
     codegen_jobs, codegen_meta = [], []
+    lean_q: list = []
     for i in range(N):
         tagger = make_tagger(ctx.seed * 977 + i, density=0.3) if rng.random() < 0.5 else None
         p = programs.generate(ctx.seed + 500, i, tagger=tagger)
@@ -283,6 +284,21 @@ def run(ctx: common.Ctx):
                               {"program_index": i, "seed": ctx.seed + 500, "pipeline": seq, "outputs": bad,
                                "tagged": tagger is not None})
                 continue
+            if len(seq) == 1 and cur is not None and seq[0] != "preprocess":
+                # the real result in the Lean heap model: one combined heap of input and output objects
+                try:
+                    from .. import heapser
+                    hv, (r_in, r_out) = heapser.view_many([base, cur])
+                    heap = hv.sexp()
+                    hv_in, _ = heapser.view_many([base])
+                    lean_q.append((i, seq[0], [f"(mapper unfoldeq {heap} {r_in} {r_out})",
+                                               f"(mapper sametags {heap} {r_in} {r_out})",
+                                               f"(mapper dupfree {heap} {r_out})",
+                                               f"(mapper extends {hv_in.sexp()} {heap})"]))
+                except Exception as e:   # noqa: BLE001
+                    ctx.coverage.setdefault("heap_serialisation_skipped", {})
+                    k = f"{type(e).__name__}"
+                    ctx.coverage["heap_serialisation_skipped"][k] = ctx.coverage["heap_serialisation_skipped"].get(k, 0) + 1
             if len(seq) == 1 and cur is not None:
                 name = seq[0]
                 props = T[name][1]
@@ -321,6 +337,42 @@ def run(ctx: common.Ctx):
                         "pre_tagged": tagger is not None})
     ctx.note_batch("transformations-vs-reference", cases, dis, exhaustive=False, programs=N, applications=per,
                    pipelines=pipelines, not_supported=unsupported)
+    # verified/structural checkers of the Lean heap model on the REAL inputs and results
+    flat = [q for _, _, qs in lean_q for q in qs]
+    ans = common.driver_query_parallel(flat)
+    ldis = 0
+    stats = {"unfold_equal": 0, "same_up_to_tags": 0, "result_dupfree": 0, "extends_input": 0}
+    for k, (i, name, qs) in enumerate(lean_q):
+        a = ans[4 * k:4 * k + 4]
+        unfoldeq, sametags, dupfree, extends = (x.startswith("ok #t") for x in a)
+        stats["unfold_equal"] += unfoldeq
+        stats["same_up_to_tags"] += sametags
+        stats["result_dupfree"] += dupfree
+        stats["extends_input"] += extends
+        if any(not x.startswith("ok") for x in a):
+            ldis += 1
+            ctx.broken.append(f"lean-heap-query:{name}:{[x[:40] for x in a if not x.startswith('ok')]}")
+            continue
+        if not extends:
+            ldis += 1
+            ctx.violation(f"transform:{name}:input-heap-changed",
+                          f"program {i}: in the combined heap the input objects' data differ after {name}",
+                          {"program_index": i, "seed": ctx.seed + 500})
+        if name in ("deduplicate", "copy_mapper", "map_and_copy_identity", "deduplicate_data_wrappers") and not unfoldeq:
+            ldis += 1
+            ctx.violation(f"transform:{name}:unfolding-changed",
+                          f"program {i}: the result of {name} does not unfold to the same tree as its argument",
+                          {"program_index": i, "seed": ctx.seed + 500})
+        if name in ("materialize_with_mpms",) and not sametags:
+            ldis += 1
+            ctx.violation(f"transform:{name}:changes-more-than-tags(heap)",
+                          f"program {i}: result and argument differ beyond node tags", {"program_index": i})
+        if name == "deduplicate" and not dupfree:
+            ldis += 1
+            ctx.violation("transform:deduplicate:result-has-duplicates",
+                          f"program {i}: the deduplicated graph still contains structurally equal distinct nodes: {a[2]}",
+                          {"program_index": i, "seed": ctx.seed + 500})
+    ctx.note_batch("lean-heap-checkers-on-real-results", len(lean_q), ldis, exhaustive=False, **stats)
     if codegen_jobs:
         res = cexec.run_jobs(ctx, codegen_jobs)
         cdis = 0
